@@ -366,9 +366,12 @@ def run(replay=None):
     long_ok = "+".join(["2"] * 700)
     # accumulation: the same nested failure many times, then nested valid expressions
     bad_nested = "((((foo))))+(((foo)))"
-    probes_nested = ["(1+2)*3", "((((1))))", "sin(((2)))*((3))", "pow((2),((3)))"]
+    # ... and deep ones: anything an instance accumulates per failed call (a counter, a stack, a budget) shows once
+    # failures x nesting depth passes its limit
+    deep = ["(" * d + "1+2" + ")" * d for d in (30, 60)] + ["sin(" * 25 + "1" + ")" * 25]
+    probes_nested = ["(1+2)*3", "((((1))))", "sin(((2)))*((3))", "pow((2),((3)))"] + deep
     _PRISTINE.update(pristine_table([("default", e) for e in EDGE + [long_bad, long_ok, "1+2", bad_nested] + probes_nested]))
-    for k in (6, 20, 60):
+    for k in (6, 20, 60, 150):
         for pr in probes_nested:
             jobs.append(("default", [bad_nested] * k + [pr], []))
     for plan in ([long_bad, long_ok], [long_ok, long_ok, "1+2"], [long_bad, long_bad, long_ok, "1+2"], [long_bad, "1+2"]):
